@@ -181,11 +181,19 @@ func DriveFrames(cfg byte, data []byte, checkAlloc bool) (sig, what string, nont
 			if err == nil {
 				nontrivial = true
 				nMsgs++
+				zeros := 0
 				for delivered < cap {
 					n, e := r.Read(buf[:1+len(data)%len(buf)])
 					delivered += n
 					if e != nil || abandon {
 						break
+					}
+					if n == 0 {
+						if zeros++; zeros > 100000 {
+							return "C07:frames-read-loop", fmt.Sprintf("%d consecutive Read calls on a message reader returned (0, nil) without consuming input", zeros), true
+						}
+					} else {
+						zeros = 0
 					}
 				}
 			}
@@ -476,6 +484,18 @@ func genFrameInput(r *gen.R) []byte {
 		n := r.Range(20, 400)
 		one := wire.Append(nil, wire.Frame{Fin: true, Rsv1: true, Op: 2, Masked: fromClient, Payload: []byte{0xff, 0xfe, 0xfd, 0x07, 0x99}})
 		return bytes.Repeat(one, n)
+	case 7:
+		// a long-lived healthy connection: a thousand or more heartbeat frames, then a message
+		n := r.Range(900, 1400)
+		var b []byte
+		for k := 0; k < n; k++ {
+			op := 10
+			if k%32 == 5 {
+				op = 9
+			}
+			b = wire.Append(b, wire.Frame{Fin: true, Op: op, Masked: fromClient, Key: [4]byte{byte(k), 1, 2, 3}, Payload: []byte{byte(k)}[:k%2]})
+		}
+		return wire.Append(b, wire.Frame{Fin: true, Op: 1, Masked: fromClient, Payload: []byte("still alive")})
 	case 3:
 		// compressed garbage / deflate bombs
 		p := bytes.Repeat([]byte{0}, r.Range(1, 2000))
@@ -483,6 +503,9 @@ func genFrameInput(r *gen.R) []byte {
 			// valid stored-less stream of zeros at high ratio, produced by the stdlib writer is
 			// avoided on purpose; use a hand-made fixed-Huffman run: literal 0 then max-length matches
 			p = deflateBomb(r.Range(1, 60))
+			if r.Chance(1, 3) {
+				p = deflateBomb(r.Range(200, 700)) // inflates to 50-180 KB: beyond the 64 KiB read limit some executions set
+			}
 		}
 		f := wire.Frame{Fin: true, Rsv1: true, Op: 2, Masked: fromClient, Payload: p}
 		return wire.Append(nil, f)
